@@ -58,6 +58,24 @@ func (c *Conn) Write(p []byte) error {
 }
 func (c *Conn) Close() { c.C.Close() }
 
+// Flood writes until a write does not complete within d (the peer has stopped draining) or max bytes were
+// written. It returns the number of bytes written and whether the stream stalled.
+func (c *Conn) Flood(chunk []byte, d time.Duration, max int) (int, bool) {
+	total := 0
+	for total < max {
+		c.C.SetWriteDeadline(time.Now().Add(d))
+		n, err := c.C.Write(chunk)
+		total += n
+		if err != nil {
+			if ne, ok := err.(net.Error); ok && ne.Timeout() {
+				return total, true
+			}
+			return total, false
+		}
+	}
+	return total, false
+}
+
 type Listener struct {
 	L     *net.TCPListener
 	Addr  string // host:port as listened on
